@@ -42,13 +42,13 @@ pub struct Finding {
 const REG_KEYS: [&str; 16] = [
     "af", "bc", "de", "hl", "afx", "bcx", "dex", "hlx", "ix", "iy", "sp", "pc", "i", "r", "iff", "im",
 ];
-const STATE_KEYS: [&str; 23] = [
+pub const STATE_KEYS: [&str; 23] = [
     "af", "bc", "de", "hl", "afx", "bcx", "dex", "hlx", "ix", "iy", "sp", "pc", "i", "r", "iff", "im",
     "halt", "skip", "mid", "lat", "lk", "bd", "pages",
 ];
-const MODEL_ONLY_KEYS: [&str; 2] = ["sb", "pfx"];
+pub const MODEL_ONLY_KEYS: [&str; 2] = ["sb", "pfx"];
 
-fn group_of(key: &str) -> String {
+pub fn group_of(key: &str) -> String {
     if key.starts_with("page") {
         "ram".into()
     } else if key == "lat" || key == "lk" || key == "sb" {
@@ -59,7 +59,7 @@ fn group_of(key: &str) -> String {
 }
 
 /// impl vs spec (SpecViolated), then impl vs model (ModelMismatch), per group
-fn compare_state(
+pub fn compare_state(
     phase: &'static str,
     got: &BTreeMap<String, String>,
     model: Option<&BTreeMap<String, String>>,
@@ -485,7 +485,7 @@ fn record(cx: &mut Ctx, rep: &mut Report, case: &Case, f: &Finding) {
 // ---------------------------------------------------------------------------------------------
 // generators
 
-fn rnd16(r: &mut Rng) -> u16 {
+pub fn rnd16(r: &mut Rng) -> u16 {
     match r.below(10) {
         0 => 0x0000,
         1 => 0xFFFF,
